@@ -67,9 +67,10 @@ def mode_cv(
     if classical:
         return np.array(len(freqs) * [Kb])
     else:
+        # exp(-x) instead of exp(x) not to overflow at low temperature.
         x = freqs / Kb / temp
-        expVal = np.exp(x)
-        return Kb * x**2 * expVal / (expVal - 1.0) ** 2
+        expVal = np.exp(-x)
+        return Kb * x**2 * expVal / (1.0 - expVal) ** 2
 
 
 def mode_F(
@@ -123,9 +124,11 @@ def mode_S(
     if classical:
         return Kb - Kb * np.log(freqs / (Kb * temp))
     else:
+        # coth(val) = 1 / tanh(val) and log(2 sinh(val)) = val + log(1 - exp(-2 val))
+        # do not overflow at low temperature (large val).
         val = freqs / (2 * Kb * temp)
-        return 1 / (2 * temp) * freqs * np.cosh(val) / np.sinh(val) - Kb * np.log(
-            2 * np.sinh(val)
+        return 1 / (2 * temp) * freqs / np.tanh(val) - Kb * (
+            val + np.log1p(-np.exp(-2 * val))
         )
 
 
